@@ -153,8 +153,13 @@ class Token(str):
         comment delimieters), false otherwise.
         """
         for pair in self.grammar.comments:
-            if self.startswith(pair[0]) and self.endswith(pair[1]):
-                return True
+            if self.startswith(pair[0]):
+                if self.endswith(pair[1]):
+                    return True
+                elif pair[1] == "\n" and "\n" not in self:
+                    # A to-end-of-line comment on the last line is
+                    # ended by the end of the text.
+                    return True
         return False
 
     def is_quote(self) -> bool:
